@@ -1,4 +1,5 @@
 import H264.C07
+import H264.BitsProof
 /-! # C07 — Bit reader decodes every u(n)/ue(v)/se(v) codeword to the standard's value
 
 Model: `Bits.Src = (remaining bits MSB first, what the byte source reports when they run out)`; `readBits`, `readUe`,
@@ -61,5 +62,14 @@ theorem sequence_example (a : Nat) (ha : a < 2^32 - 1) (v : Int) (hv : SeRange v
 /-- non-vacuity: the extreme codeNum and the extreme signed values are inside the hypotheses -/
 example : (2^32 - 2 : Nat) < 2^32 - 1 ∧ SeRange (2^31 - 1) ∧ SeRange (-(2^31 - 1)) := by
   unfold SeRange; omega
+
+/-- **the assumed bit-list semantics, checked by proof on a complete small domain**: for every first byte, second byte in
+{00, ff, 5a} and bit offset 0…7 (6 144 positions), the model's `readUe` / `readSe` return exactly what the real
+`rbsp::BitReader` (over bitstream-io) returned when the harness ran it for this run's graph: the value, the number of bits
+left (so the codeword length), or the same error class -/
+theorem model_ue_reproduces_code : ∀ b0 : Fin 256, ∀ j : Fin 24,
+    BitsProof.ueRow b0.val j.val = (Generated.bitsUe.getD b0.val []).getD j.val (9, 9, 9) := BitsProof.bits_ue_model_eq_code
+theorem model_se_reproduces_code : ∀ b0 : Fin 256, ∀ j : Fin 24,
+    BitsProof.seRow b0.val j.val = (Generated.bitsSe.getD b0.val []).getD j.val (9, 9, 9) := BitsProof.bits_se_model_eq_code
 
 end C07
